@@ -50,7 +50,8 @@ func (c *Config) CountField(name string, opts ...Option) (int, error) {
 
 	n, lenErr := v.Len(o)
 	if lenErr != nil {
-		if _, ok := lenErr.(Error); !ok {
+		if e, ok := lenErr.(Error); !ok || e.Path() == "" {
+			// the failing setting is v (a reference that does not resolve...)
 			ctx := v.Context()
 			lenErr = raisePathErr(lenErr, v.meta(), "", ctx.path("."))
 		}
